@@ -40,14 +40,19 @@ def iter_nodes(schema, depth=0):
         return
 
 
+class PartnerCorrupted(Exception):
+    """The other caller of an interleaved pair got something that is not a value of *its* schema."""
+
+
 class Prop(BaseProp):
     id = "C01"
 
     def setup(self):
-        from d42 import fake, validate
+        from d42 import fake, schema, validate
         from d42.generation import Generator, Random, RegexGenerator
         self.env = S.Env()
         self.fake = fake
+        self.schema = schema
         self.validate = validate
         self.Generator, self.Random, self.RegexGenerator = Generator, Random, RegexGenerator
         self.known = self.args.get("known", [])
@@ -66,7 +71,49 @@ class Prop(BaseProp):
                 "clock_seed": derive(*labels, "clock")}
         return case
 
+    def _partner(self):
+        if getattr(self, "_partner_schema", None) is None:
+            sc = self.schema
+            self._partner_schema = sc.dict({
+                "id": sc.int.min(1).max(9),
+                "tags": sc.list(sc.str.alphabet("xy").len(3)).len(2),
+                "f": sc.float.min(0.0).max(1.0).precision(2),
+                "r": sc.str.regex(r"[ab]{2}-\d"),
+                "any": sc.any(sc.none, sc.bool),
+            })
+        return self._partner_schema
+
+    def _generate_pair(self, sch, case):
+        """Two logical callers share the generator (fake() / ~ : the module-level one; otherwise one
+        Generator instance): caller 0 generates from the case's schema, caller 1 from a fixed partner
+        schema, interleaved at draw granularity (sim.interleave).  Each must get a value of *its* schema."""
+        from .interleave import Interleaver
+        route = case["route"]
+        partner = self._partner()
+        if route == "fake":
+            f0, f1 = (lambda: self.fake(sch)), (lambda: self.fake(partner))
+        elif route == "invert":
+            f0, f1 = (lambda: ~sch), (lambda: ~partner)
+        else:
+            rnd = self.Random()
+            letters = case.get("letters")
+            rg = self.RegexGenerator(rnd, max_repeat=case["max_repeat"], alphabet={"letters": letters} if letters else None)
+            gen = self.Generator(rnd, rg)
+            f0, f1 = (lambda: sch.__accept__(gen)), (lambda: partner.__accept__(gen))
+        il = Interleaver(self.world, case["pair"]["switch_seed"])
+        (k0, r0), (k1, r1) = il.run([f0, f1])
+        self.probes["pair:baton_switches"] += il.switches
+        if k1 == "raise" and not isinstance(r1, (DrawCapExceeded, RecursionError)):
+            raise PartnerCorrupted("partner raised %s: %s" % (type(r1).__name__, str(r1)[:100]))
+        if k1 == "ok" and self.validate(partner, r1).has_errors():
+            raise PartnerCorrupted("partner got %s" % canon(r1)[:160])
+        if k0 == "raise":
+            raise r0
+        return r0
+
     def _generate(self, sch, case):
+        if case.get("pair"):
+            return self._generate_pair(sch, case)
         route = case["route"]
         if route == "fake":
             return self.fake(sch)
@@ -89,6 +136,8 @@ class Prop(BaseProp):
             return {"outcome": "skip:draw_cap"}
         except RecursionError:
             return {"outcome": "skip:recursion"}
+        except PartnerCorrupted as e:
+            return {"outcome": "pair:partner_corrupted", "phase": "fake", "detail": str(e), "culprit": ("?", ["pair"])}
         except Exception as e:
             c = S.culprit_from_traceback(sys.exc_info()[2])
             return {"outcome": "raise:" + type(e).__name__, "phase": "fake",
@@ -166,17 +215,27 @@ class Prop(BaseProp):
                                    "schedule": schedule.to_json(), "generated": canon(out["value"])[:300],
                                    "draws": self.world.draws, "outcome": oc})
             elif not oc.startswith("skip:"):
-                failures.append((schedule, out))
+                failures.append((schedule, out, case))
+            if "value" in out:
+                from .p_c17 import scribble
+                scribble(out["value"])      # the caller owns the value; later generations must not show the edits
             return self.world.draws
 
         self.schedule_plan(run, case["seed"], case["m"], case["flip_n"])
+        # two callers sharing the generator, interleaved at draw points (2 interleavings per case)
+        solo = case
+        for j in range(2):
+            case = dict(solo, pair={"switch_seed": derive(solo["seed"], "pair", j)})
+            run(Schedule("rnd" if j else "mix", seed=derive(solo["seed"], "pairsched", j)))
+            self.probes["pair:executions"] += 1
+        case = solo
         self._case_probes(sch)
         violations = []
         if failures:
             if sat or any_ok[0]:
-                for schedule, out in failures:
+                for schedule, out, fcase in failures:
                     # re-run to have the log of exactly this execution for the digest
-                    violations.append(self._violation_rerun(sch, case, schedule))
+                    violations.append(self._violation_rerun(sch, fcase, schedule))
                 violations = [v for v in violations if v is not None]
             else:
                 self.probes["unverified_sat_with_failures"] += 1
